@@ -178,4 +178,133 @@ example :
       = [(-1, 0), (1, 0), (-2, 0), (3, -2), (-1, 0)].map (fun q => (m2Alg false).phi q.1 q.2) := by
   decide +kernel
 
+section optionsThm
+variable {K W M : Type} [DecidableEq K] [DecidableEq W] [DecidableEq M]
+
+/-- the options object holds exactly the solver's keys and those of the integrator of its method -/
+def OptState.WF (sp : OptSpec K W M) (st : OptState K W M) : Prop :=
+  ∀ k, (st.vals k).isSome = (sp.S k || sp.I st.method k)
+
+/-- what the caller asked for key `k`: the value given, the default for `None`, else what `fallback` says -/
+def asked (new : K → Option (Option W)) (k : K) (dflt : W) (fallback : W) : W :=
+  match new k with
+  | some (some w) => w
+  | some none => dflt
+  | none => fallback
+
+theorem default_wf (sp : OptSpec K W M) (m : M) : (OptState.default sp m).WF sp := by
+  intro k
+  simp only [OptState.default]
+  cases sp.S k <;> cases sp.I m k <;> simp
+
+/-- key by key: what the setter leaves is what was asked for -/
+theorem optAt_spec (sp : OptSpec K W M) (st : OptState K W M) (hwf : st.WF sp) (new : NewOpts K W M) (k : K) :
+    optAt sp st new k =
+      if sp.S k then some (asked new.opts k (sp.dS k) ((st.vals k).getD (sp.dS k)))
+      else if sp.I (new.method.getD st.method) k then
+        some (asked new.opts k (sp.dI (new.method.getD st.method) k)
+          (if new.method.getD st.method = st.method then (st.vals k).getD (sp.dI (new.method.getD st.method) k)
+           else sp.dI (new.method.getD st.method) k))
+      else none := by
+  have hw := hwf k
+  unfold optAt parseOptions asked
+  simp only []
+  by_cases hm : new.method.getD st.method = st.method
+  · rw [hm] at *
+    cases hs : sp.S k <;> cases hi : sp.I st.method k <;> cases ho : st.vals k <;>
+      cases hn : new.opts k with
+      | none => simp_all
+      | some v => cases v <;> simp_all <;> (try split) <;> simp_all
+  · cases hs : sp.S k <;> cases hi : sp.I (new.method.getD st.method) k <;> cases ho : st.vals k <;>
+      cases hn : new.opts k with
+      | none => simp_all
+      | some v => cases v <;> simp_all <;> (try split) <;> simp_all
+
+/-- **the options setter does what was asked**: afterwards every key of the solver and of the integrator of the method
+now in force is present; a key that was given has the value given (its default for `None`); a solver-level key that
+was not given keeps its value; an integrator key that was not given keeps its value when the method stayed and takes
+its default when the method changed — whatever the old values were. -/
+theorem setOptions_spec (sp : OptSpec K W M) (st : OptState K W M) (hwf : st.WF sp) (new : NewOpts K W M)
+    (r : OptState K W M) (h : setOptions sp st new = some r) :
+    r.method = new.method.getD st.method ∧ r.WF sp ∧
+    ∀ k, r.vals k =
+      if sp.S k then some (asked new.opts k (sp.dS k) ((st.vals k).getD (sp.dS k)))
+      else if sp.I r.method k then
+        some (asked new.opts k (sp.dI r.method k)
+          (if r.method = st.method then (st.vals k).getD (sp.dI r.method k) else sp.dI r.method k))
+      else none := by
+  unfold setOptions at h
+  split at h
+  · cases h
+  · simp only [Option.some.injEq] at h
+    subst h
+    refine ⟨rfl, ?_, fun k => optAt_spec sp st hwf new k⟩
+    intro k
+    show (optAt sp st new k).isSome = _
+    rw [optAt_spec sp st hwf new k]
+    cases sp.S k <;> cases sp.I (new.method.getD st.method) k <;> simp
+
+/-- the setter refuses exactly when a key was given that neither the solver nor the integrator of the method in force
+afterwards knows -/
+theorem setOptions_refuses_iff (sp : OptSpec K W M) (st : OptState K W M) (new : NewOpts K W M) :
+    setOptions sp st new = none ↔
+      ∃ k ∈ new.keys, (new.opts k).isSome ∧ sp.S k = false ∧ sp.I (new.method.getD st.method) k = false := by
+  unfold setOptions
+  constructor
+  · intro h
+    split at h
+    · rename_i hany
+      obtain ⟨k, hk, he⟩ := List.any_eq_true.mp hany
+      refine ⟨k, hk, ?_⟩
+      unfold optExtra parseOptions at he
+      simp only [] at he
+      cases hs : sp.S k <;> cases hi : sp.I (new.method.getD st.method) k <;> simp_all
+    · cases h
+  · rintro ⟨k, hk, h1, h2, h3⟩
+    have : new.keys.any (optExtra sp st new) = true := by
+      apply List.any_eq_true.mpr
+      refine ⟨k, hk, ?_⟩
+      unfold optExtra parseOptions
+      simp [h2, h3, h1]
+    simp [this]
+
+/-- item assignment and the change of method by item assignment keep the options object well formed -/
+theorem setItem_wf (sp : OptSpec K W M) (st : OptState K W M) (hwf : st.WF sp) (k : K) (v : Option W)
+    (r : OptState K W M) (h : setItem sp st k v = some r) :
+    r.WF sp ∧ r.method = st.method ∧ r.vals k = some (v.getD (if sp.S k then sp.dS k else sp.dI st.method k)) ∧
+      ∀ k', k' ≠ k → r.vals k' = st.vals k' := by
+  unfold setItem at h
+  by_cases hs : sp.S k = true
+  · simp only [hs, if_true, Option.some.injEq] at h
+    subst h
+    refine ⟨?_, rfl, by simp [hs], fun k' hk => by simp [hk]⟩
+    intro k'
+    by_cases hk : k' = k
+    · subst hk; simp [hs]
+    · simp only [hk, if_false]; exact hwf k'
+  · have hs' : sp.S k = false := by simpa using hs
+    by_cases hi : sp.I st.method k = true
+    · simp only [hs', Bool.false_eq_true, if_false, hi, if_true, Option.some.injEq] at h
+      subst h
+      refine ⟨?_, rfl, by simp [hs'], fun k' hk => by simp [hk]⟩
+      intro k'
+      by_cases hk : k' = k
+      · subst hk; simp [hi]
+      · simp only [hk, if_false]; exact hwf k'
+    · have hi' : sp.I st.method k = false := by simpa using hi
+      simp [hs', hi'] at h
+
+theorem setMethod_wf (sp : OptSpec K W M) (st : OptState K W M) (hwf : st.WF sp) (m : M) :
+    (setMethod sp st m).WF sp ∧ (setMethod sp st m).method = m := by
+  unfold setMethod
+  split
+  · rename_i hm
+    exact ⟨hwf, hm.symm⟩
+  · refine ⟨?_, rfl⟩
+    intro k
+    have hw := hwf k
+    show (if sp.S k = true then st.vals k else if sp.I m k = true then some (sp.dI m k) else none).isSome = _
+    cases hs : sp.S k <;> cases hi : sp.I m k <;> simp_all
+end optionsThm
+
 end Qv.C11
